@@ -79,7 +79,55 @@ def gen_stream(rng, cf_names, kind):
     return ST(ent, content)
 
 
-def gen_doc(rng, cf_names, rich=True):
+# ------------------------------------------------------------------------------------------
+# object streams: decrypt_raw ends with ObjectStream::new on every decrypted stream of Type ObjStm
+# ------------------------------------------------------------------------------------------
+def pdf_direct(rng, depth):
+    """a direct object in PDF syntax (the content of an object stream)"""
+    k = rng.random()
+    if depth > 0 and k < 0.15:
+        return b'[' + b' '.join(pdf_direct(rng, depth - 1) for _ in range(rng.randint(0, 3))) + b']'
+    if depth > 0 and k < 0.35:
+        keys = rng.sample([b'A', b'B', b'Title', b'K', b'V'], rng.randint(0, 3))
+        return b'<<' + b''.join(b'/' + key + b' ' + pdf_direct(rng, depth - 1) for key in keys) + b'>>'
+    if k < 0.6:
+        return b'(' + bytes(rng.choice(b'abcdefghijklmnopqrstuvwxyz 0123456789') for _ in range(rng.randint(0, 24))) + b')'
+    if k < 0.7:
+        return b'<' + rbytes(rng, rng.randint(0, 20)).hex().encode() + b'>'
+    return rng.choice([b'7', b'-3', b'/Name', b'true', b'null', b'5 0 R', b'1.5'])
+
+
+def gen_objstm(rng, used, max_id, flate=False):
+    """a stream of Type ObjStm: members under free numbers (they appear on decrypt), under numbers the document already
+    uses (kept as they are) and -- sometimes -- under max_id + 1, the number the encryption dictionary takes"""
+    free = [n for n in range(1, 45) if n not in used]
+    nums = rng.sample(free, min(len(free), rng.randint(1, 3)))
+    if rng.random() < 0.5:
+        nums.append(rng.choice(sorted(used)))
+    if rng.random() < 0.3:
+        nums.append(max_id + 1)
+    if rng.random() < 0.15:
+        nums.append(nums[0])                      # the same number twice: the later entry wins inside one stream
+    rng.shuffle(nums)
+    bodies, offs, pos = [], [], 0
+    for _ in nums:
+        b = pdf_direct(rng, 2)
+        offs.append(pos)
+        bodies.append(b)
+        pos += len(b) + 1
+    sep = rng.choice([b' ', b' ', b'\n', b'  '])
+    index = sep.join(('%d %d' % (n, o)).encode() for n, o in zip(nums, offs)) + rng.choice([b' ', b'\n'])
+    content = index + b' '.join(bodies)
+    ent = [('Type', N('ObjStm')), ('N', I(len(nums) if rng.random() < 0.9 else len(nums) + 1)), ('First', I(len(index)))]
+    if flate:
+        import zlib
+        content = zlib.compress(content)
+        ent.append(('Filter', N('FlateDecode')))
+    ent.append(('Length', I(len(content))))
+    return ST(ent, content)
+
+
+def gen_doc(rng, cf_names, rich=True, objstm=None):
     """(doc text, features)"""
     nobj = rng.randint(2, 9)
     ids = rng.sample(range(1, 40), nobj + 1)
@@ -109,9 +157,18 @@ def gen_doc(rng, cf_names, rich=True):
             o = gen_string(rng)
         objects.append(((i, g), o))
     objects.append((cat, D([('Type', N('Catalog')), ('Lang', S(b'en-US'))])))
+    max_id = max(ids) + rng.choice([0, 0, 0, 3])
+    if objstm:
+        used = set(ids)
+        for _ in range(rng.choice([1, 1, 2])):
+            free = [n for n in range(1, max_id + 1) if n not in used] or [max_id + 2]
+            sid = rng.choice(free)
+            max_id = max(max_id, sid)
+            used.add(sid)
+            objects.append(((sid, 0), gen_objstm(rng, used, max_id, flate=(objstm == 'flate'))))
+        feats.add('objstm-flate' if objstm == 'flate' else 'objstm')
     rng.shuffle(objects)
     trailer = [('Root', REF(*cat)), ('ID', A([S(rbytes(rng, 16)), S(rbytes(rng, 16))])), ('Size', I(max(ids) + 1))]
-    max_id = max(ids) + rng.choice([0, 0, 0, 3])
     return DOC('1.7', b'', trailer, objects, max_id), feats
 
 
@@ -239,19 +296,26 @@ def damage_encdoc(rng, encdoc):
 # ------------------------------------------------------------------------------------------
 def plan(tier):
     if tier == 'quick':
-        return [('v1', 8), ('v2', 14), ('v2bad', 4), ('v4', 22), ('v4odd', 4), ('r5', 8), ('v5', 2)]
-    return [('v1', 120), ('v2', 300), ('v2bad', 40), ('v4', 500), ('v4odd', 60), ('r5', 160), ('v5', 40), ('v5odd', 10)]
+        return [('v1', 8), ('v2', 14), ('v2bad', 4), ('v4', 22), ('v4odd', 4), ('r5', 8), ('v5', 2), ('objstm', 8), ('objstm-flate', 1)]
+    return [('v1', 120), ('v2', 300), ('v2bad', 40), ('v4', 500), ('v4odd', 60), ('r5', 160), ('v5', 40), ('v5odd', 10),
+            ('objstm', 160), ('objstm-flate', 10)]
 
 
 def gen_cases(rng, tier):
     impl, _ = vlib.build_harness(SPEC['bin'], None, False)
     runner, _ = vlib.build_runner(SPEC['runner'])
     specs = []
-    for kind, n in plan(tier):
+    for kind0, n in plan(tier):
         for _ in range(n):
+            # objstm: documents holding streams of Type ObjStm (decrypt_raw's last pass expands them), under any of the
+            # cheap versions; objstm-flate: the object stream is compressed -- ObjectStream::new decompresses it in place,
+            # which the model has no filter for: both sides answer "unmodelled", and byte-for-byte restoration of that
+            # stream is not what the code does (it comes back decompressed), so no verdict
+            objstm = {'objstm': 'plain', 'objstm-flate': 'flate'}.get(kind0)
+            kind = rng.choice(['v1', 'v2', 'v4', 'v4', 'r5']) if objstm else kind0
             mk, limit, cf_names, alldiff = gen_version(rng, kind)
             owner, user, wrongs = gen_pw_pair(rng, limit)
-            doc, feats = gen_doc(rng, cf_names)
+            doc, feats = gen_doc(rng, cf_names, objstm=objstm)
             ver = mk(owner, user)
             rnd = [rbytes(rng, 16), rbytes(rng, 16), rbytes(rng, 4)]
             ivs = [rbytes(rng, 16) for _ in range(80)]
@@ -279,6 +343,8 @@ def gen_cases(rng, tier):
         flags = ['noverdict']
         if supported:
             flags = ['alldiff'] if (s['alldiff'] and not (s['feats'] & {'metadata', 'xref', 'crypt'})) else []
+        if 'objstm-flate' in s['feats']:
+            flags = ['noverdict']
         if s['kind'] in ('v5', 'v5odd'):
             # Algorithm 2.B costs seconds per hash in the extracted model: one line per piece of work
             parts = [([], flags + ['noverdict'] if 'noverdict' not in flags else flags)] + \
@@ -287,7 +353,17 @@ def gen_cases(rng, tier):
             parts = [(pws, flags)]
         for ps, fl in parts:
             cases.append((L('case', s['doc'], s['ver'], encdoc, L('pws', *[xb(p) for p in ps]), L('flags', *fl)),
-                          {'kind': '%s-%s' % (s['kind'], src), 'nontrivial': True}))
+                          {'kind': '%s%s-%s' % (s['kind'], ''.join('+' + x for x in sorted(s['feats']) if x.startswith('objstm')), src),
+                           'nontrivial': True}))
+        if s['kind'] in ('r5', 'v5') and rng.random() < (0.5 if s['kind'] == 'r5' else 1.0):
+            # the entry Length 256 that Acrobat / qpdf write into a V 5 dictionary (ignored since repo d4c3304; it was
+            # refused with InvalidKeyLength): the document must open exactly as without it
+            k = encdoc.find('(%s %s)' % (xb('Filter'), N('Standard')))
+            if k >= 0:
+                with256 = encdoc[:k] + '(%s %s) ' % (xb('Length'), I(256)) + encdoc[k:]
+                cases.append((L('case', s['doc'], s['ver'], with256, L('pws', *[xb(p) for p in pws[:(1 if s['kind'] == 'v5' else 3)]]),
+                                L('flags', 'noverdict', 'noreenc')),
+                              {'kind': 'length256-' + s['kind'], 'nontrivial': True}))
         if rng.random() < 0.35:
             dmg, what = damage_encdoc(rng, encdoc)
             if dmg:
@@ -309,7 +385,9 @@ SPEC = {
     'gen_cases': gen_cases,
     'compare': compare,
     'rule': 'random documents (strings nested in arrays/dictionaries, literal and hexadecimal, empty, 15/16/17/32/33-byte, binary; '
-            'streams incl. empty, Metadata, XRef, per-stream Crypt overrides, wrong/missing Length; sparse ids, non-zero generations) x '
+            'streams incl. empty, Metadata, XRef, per-stream Crypt overrides, wrong/missing Length, streams of Type ObjStm whose '
+            'members are partly absent from the object map (they appear on decrypt), partly present, one sometimes numbered like '
+            'the encryption dictionary; sparse ids, non-zero generations) x '
             '{V1; V2 40..128 and unsupported lengths; V4 with RC4/AESV2/Identity(/AESV3) per filter name, StmF/StrF chosen independently, '
             'unknown names; R5; V5} x EncryptMetadata x permission subsets x password pairs (empty, short, >32, >127, owner = user, '
             'equal after truncation) + 2-3 wrong passwords; each document is encrypted by lopdf (70%) or by the model with explicit '
